@@ -404,6 +404,40 @@ func c11RunSchedule(s c11Schedule) (res c11Result) {
 					time.Sleep(200 * time.Microsecond)
 				}
 			}
+		case "sreqstart":
+			// a server-issued request that stays unanswered for the steps that follow (ungated)
+			ctl.Pass(st.Arg, "push.lookup")
+			ctl.Pass(st.Arg, "sse.write.id")
+			sd := startSend(st.Arg, "request")
+			on := r.whereIs(sd.nonce, c11Wait)
+			res.Obs = append(res.Obs, c11Obs{Op: "sreqstart", Arg: st.Arg, OK: on != "none", On: on})
+			if on == "none" {
+				fail("the request frame appeared on no stream")
+				return
+			}
+		case "sreqcheck":
+			// nobody has answered or cancelled it: it is still pending; now the session answers, and the answer is accepted
+			sd := r.sends[st.Arg]
+			o := c11Obs{Op: "sreqcheck", Arg: st.Arg}
+			time.Sleep(60 * time.Millisecond)
+			select {
+			case <-sd.done:
+				o.Err = fmt.Sprintf("ended by itself: %v", sd.err)
+			default:
+				body := fmt.Sprintf(`{"jsonrpc":"2.0","id":%q,"result":{"roots":[]}}`, sd.nonce)
+				pr := peer.PostJSON(ctx, r.url, map[string]string{"Mcp-Session-Id": sid}, []byte(body), false)
+				select {
+				case <-sd.done:
+					if sd.err != nil {
+						o.Err = fmt.Sprintf("answer posted (status %d), the request ended with: %v", pr.Status, sd.err)
+					} else {
+						o.OK = true
+					}
+				case <-time.After(c11Wait):
+					o.Err = fmt.Sprintf("answer posted (status %d), the request did not return", pr.Status)
+				}
+			}
+			res.Obs = append(res.Obs, o)
 		case "probe":
 			// an ungated send at a quiescent point
 			ctl.Pass(st.Arg, "push.lookup")
